@@ -31,7 +31,8 @@ def sizes_for(T, C):
 def gen_cases(tier, seed):
     rng = random.Random(seed)
     cases = []
-    srcs = [('path', None), ('seekable', 0), ('seekable', 1), ('seekable', 13), ('nonseekable', None), ('nonseekable_sized', None)]
+    srcs = [('path', None), ('seekable', 0), ('seekable', 1), ('seekable', 13), ('nonseekable', None), ('nonseekable_sized', None),
+            ('seekable_sized', 0), ('seekable_sized', 7), ('path_sized', None)]
     combos = [(8, 8), (20, 8), (5, 9), (16, 4)]
     for (T, C) in combos:
         for size in sizes_for(T, C):
@@ -42,15 +43,16 @@ def gen_cases(tier, seed):
                                max_submission_concurrency=rng.choice([1, 2]),
                                max_in_memory_upload_chunks=rng.choice([1, 2, 3]),
                                max_request_queue_size=rng.choice([1, 2, 1000]))
-                    t = {'kind': 'upload', 'src': 'nonseekable' if src.startswith('nonseekable') else src, 'size': size}
+                    t = {'kind': 'upload', 'src': src.split('_')[0], 'size': size}
                     if start is not None:
                         t['start'] = start
                     # stream flavour: declares seekable()/readable() like io.IOBase, or only offers the methods (probed)
-                    if src == 'seekable':
+                    if src.startswith('seekable'):
                         t['flavor'] = rng.choice(['declared', 'duck', 'fileno'])
                     elif src.startswith('nonseekable'):
                         t['flavor'] = rng.choice(['bare', 'declared', 'raising'])
-                    if src == 'nonseekable_sized':
+                    if src.endswith('_sized'):
+                        # the size is supplied by a subscriber in on_queued (as the AWS CLI does), not discovered by the library
                         t['subs'] = [{'provide_size': size}]
                     spec = {
                         'seed': rng.randrange(1 << 30), 'min_part': C, 'config': cfg, 'transfers': [t],
